@@ -6,20 +6,30 @@ package c19
 //	TOKEN                      one host-less token, applies to every host
 //	TOKEN@HOST(,TOKEN@HOST)*   one token per host, exact host match
 //
-// `@` and `,` are the only splitters; tokens and hosts are non-empty and contain neither.
+// `@` and `,` are the only splitters; tokens and hosts are non-empty and contain neither. The TOKEN of a
+// TOKEN@HOST entry does not contain `:` either (round 3, see below); hosts may (ports), and so may a
+// host-less token.
 // The model is given twice, independently of each other and of buf's parser:
 //   - Parse: a left-to-right character scanner (recogniser),
 //   - Sentences: a generator of all well-formed sentences up to a symbol length (grammar).
 // The check compares the two on every enumerated string (model self-check) before it compares the
 // implementation with the model.
 //
-// Two zones are deliberately left open because neither the property nor the doc comments decide them:
-//   - GreyColon: a TOKEN of a TOKEN@HOST entry contains `:` (buf rejects; accepting it with exactly
-//     that binding would not send a token anywhere it was not configured for),
+// One zone is deliberately left open because neither the property nor the doc comments decide it:
 //   - GreyDup: the same HOST appears in two entries (buf rejects; "the first configured source wins"
 //     would also be fine). What is never fine is a later entry winning.
+//
+// Until round 3 a second zone was open: a TOKEN of a TOKEN@HOST entry containing `:` ("GreyColon":
+// rejecting and accepting with exactly the written binding were both tolerated). It is closed now: the
+// property's quantifier names `:` next to `@` and `,` as a SEPARATOR of the BUF_TOKEN language, and the
+// property demands that a malformed string is rejected as a whole; a token part that contains a separator
+// (the `user:token@host` spelling of a pasted netrc-style credential) is malformed - class
+// `token-with-colon` - and accepting it would send `Bearer user:token`, a string nobody configured as a
+// token. The host-less form is not touched by this (the property says a single host-less token applies
+// by design; it has no parts a separator could delimit) and neither is the host part (`r.io:443`).
 
 import (
+	"bytes"
 	"sort"
 	"strings"
 )
@@ -49,13 +59,12 @@ type Config struct {
 	Kind      Kind
 	Token     string    // KSingle
 	Bindings  []Binding // KMap, in sentence order (duplicates kept: first wins)
-	GreyColon bool      // some entry token contains ':'
 	GreyDup   bool      // some host occurs twice
 	Malformed string    // KReject: structural class of the first malformed entry
 }
 
 // Grey reports whether the implementation may also reject this (otherwise well-formed) string.
-func (c Config) Grey() bool { return c.GreyColon || c.GreyDup }
+func (c Config) Grey() bool { return c.GreyDup }
 
 // Lookup returns the token the model sends to host q ("" = no Authorization header).
 func (c Config) Lookup(q string) string {
@@ -107,9 +116,6 @@ func (c Config) Canon() string {
 	if c.GreyDup {
 		s += "+dup"
 	}
-	if c.GreyColon {
-		s += "+colon"
-	}
 	return s
 }
 
@@ -147,11 +153,10 @@ func Parse(s string) Config {
 			bad = "empty-token"
 		case len(host) == 0:
 			bad = "empty-host"
+		case bytes.IndexByte(tok, ':') >= 0:
+			bad = "token-with-colon"
 		default:
 			h, t := string(host), string(tok)
-			if strings.IndexByte(t, ':') >= 0 {
-				cfg.GreyColon = true
-			}
 			if seen[h] {
 				cfg.GreyDup = true
 			}
@@ -226,6 +231,9 @@ func Sentences(syms []string, maxSyms int) map[string]Config {
 	for n := 3; n <= maxSyms; n++ {
 		for a := 1; a <= n-2; a++ {
 			for _, t := range words[a] {
+				if strings.Contains(t, ":") {
+					continue // a separator inside the token part: not a sentence
+				}
 				for _, h := range words[n-1-a] {
 					entries[n] = append(entries[n], entry{t + "@" + h, Binding{Host: h, Token: t}})
 				}
@@ -238,9 +246,6 @@ func Sentences(syms []string, maxSyms int) map[string]Config {
 			cfg := Config{Kind: KMap, Bindings: append([]Binding(nil), bs...)}
 			seen := map[string]bool{}
 			for _, b := range bs {
-				if strings.Contains(b.Token, ":") {
-					cfg.GreyColon = true
-				}
 				if seen[b.Host] {
 					cfg.GreyDup = true
 				}
@@ -262,7 +267,7 @@ func Sentences(syms []string, maxSyms int) map[string]Config {
 
 // SameConfig compares two model configurations structurally.
 func SameConfig(a, b Config) bool {
-	if a.Kind != b.Kind || a.Token != b.Token || a.GreyColon != b.GreyColon || a.GreyDup != b.GreyDup || len(a.Bindings) != len(b.Bindings) {
+	if a.Kind != b.Kind || a.Token != b.Token || a.GreyDup != b.GreyDup || len(a.Bindings) != len(b.Bindings) {
 		return false
 	}
 	for i := range a.Bindings {
